@@ -100,7 +100,7 @@ def gen_body(rng, n):
             op["op"] = rng.choice(["GI", "GA", "HAS", "KEYS", "LEN"])
             if op["op"] in ("KEYS", "LEN"):
                 del op["k"]
-        ops.append(op)
+        ops.append(c06.plain_syntax(op))
     return ops
 
 
@@ -370,7 +370,8 @@ def gen_session(rng, prepost=0.3):
             cfglib.set_total(defaults, list(k), c06.leaf(rng, k))
         i = rng.randrange(len(flat) - 1)
         j = rng.randrange(i + 1, len(flat))
-        dels = [{"op": rng.choice(["DI", "DA"]), "path": [[x, rng.random() < 0.4] for x in k[:-1]], "k": k[-1]} for k in picks]
+        dels = [c06.plain_syntax({"op": rng.choice(["DI", "DA"]), "path": [[x, rng.random() < 0.4] for x in k[:-1]], "k": k[-1]})
+                for k in picks]
         sets = [{"op": "SI", "path": [[x, False] for x in k[:-1]], "k": k[-1], "v": c06.leaf(rng, k)}
                 for k in rng.sample(picks, rng.randint(1, len(picks)))]
         if flat[i] != flat[j]:
